@@ -533,4 +533,6 @@ def run(run: Run):
     run.floor('C10.R4', 8)
     from .common import shared_mechanisms as _shared
     _shared(run, 'C10', 10, ['stored-values', 'overrides'])
+    from .common import shared_mechanisms as _shared_f
+    _shared_f(run, 'C10', 12, ['formulas'])
     return INFO
